@@ -394,8 +394,129 @@ def main_c37(run):
                       extra={"exhaustive": True})
 
 
+# ---------------------------------------------------------------- C16
+HIT_PY = '''
+import os
+def hit(k):
+    with open(os.environ["HYV_LOG"], "a") as f:
+        f.write("s%s\\n" % k)
+def val(k, v):
+    with open(os.environ["HYV_LOG"], "a") as f:
+        f.write("v%s=%r\\n" % (k, v))
+    return v
+'''
+
+
+def render_staging(prog):
+    out = ["(import hyv_hit)"]
+    for i, (kind, (where, runs)) in enumerate(prog, 1):
+        s1, s2 = 10 * i + 1, 10 * i + 2
+        if kind == "ewc":
+            form = f"(eval-when-compile (import hyv_hit) (hyv_hit.hit {s1}))"
+        elif kind == "eac":
+            form = f"(hyv_hit.val {i} (eval-and-compile (import hyv_hit) (hyv_hit.hit {s1}) (+ 40 {i})))"
+        else:
+            form = f"(hyv_hit.val {i} (do-mac (import hyv_hit) (hyv_hit.hit {s1}) '(do (hyv_hit.hit {s2}) (+ 50 {i}))))"
+        if where == "top":
+            out.append(form)
+        else:
+            out.append(f"(defn f{i} [] {form} None)")
+            out += [f"(f{i})"] * runs
+    return "\n".join(out) + "\n"
+
+
+def main_c16(run):
+    import subprocess
+    from concurrent.futures import ThreadPoolExecutor
+    from ..core import PY
+    rng = random.Random(run.seed)
+    q = run.quick
+    mf = 2 if q else 3
+    r = tlc.run("HyStaging", tlc.cfg(constants={"MaxForms": mf},
+                                     invariants=["CachedIsRunTimePart", "EwcNeverAtRunTime", "BodiesOncePerCompilation", "Export"]),
+                run.work, workers=8, label="staging")
+    if r.violated:
+        raise MachineryError(f"HyStaging: {r.violated} violated on the specification")
+    run.add_tlc(r, f"HyStaging: every module of <= {mf} staging forms x placement x call count")
+    progs = r.ex("PROG")
+    run.log(f"TLC: {len(progs)} programs")
+    if len(progs) > (160 if q else 2500):
+        progs = rng.sample(progs, 160 if q else 2500)
+    d = run.work / "staging"
+    d.mkdir()
+    (d / "hyv_hit.py").write_text(HIT_PY)
+    base_env = {k: v for k, v in os.environ.items() if k not in ("PYTHONDONTWRITEBYTECODE", "HY_VERIF_TRACE")}
+    base_env.update(PYTHONPATH=str(d), HY_MESSAGE_WHEN_COMPILING="1")
+    # warm the bytecode caches of hy itself
+    for pre in ("pyc-a", "pyc-b"):
+        subprocess.run([PY, "-c", "import hy, hy.core.hy_repr, hy.pyops"], env=dict(base_env, PYTHONPYCACHEPREFIX=str(d / pre),
+                       HYV_LOG=str(d / "warm.log")), capture_output=True)
+
+    def run_prog(k_prog):
+        k, rec = k_prog
+        name = f"hyv_stage_{k}"
+        text = render_staging(rec["prog"])
+        (d / f"{name}.hy").write_text(text)
+        res = {}
+        for hist, cmd, pre in (("compile", f"import hy, py_compile; py_compile.compile({str(d / (name + '.hy'))!r}, doraise=True)", "pyc-a"),
+                               ("source", f"import hy, {name}", "pyc-b"), ("bytecode", f"import hy, {name}", "pyc-b")):
+            log = d / f"{name}.{hist}.log"
+            p = subprocess.run([PY, "-c", cmd], env=dict(base_env, PYTHONPYCACHEPREFIX=str(d / pre), HYV_LOG=str(log)),
+                               capture_output=True, text=True, cwd=d, timeout=120)
+            lines = log.read_text().split() if log.exists() else []
+            res[hist] = {"rc": p.returncode, "lines": lines, "compiled": f"{name}.hy" in p.stderr and "Compiling" in p.stderr,
+                         "err": p.stderr[-300:] if p.returncode else ""}
+        return rec, text, res
+
+    with ThreadPoolExecutor(max_workers=12) as ex:
+        results = list(ex.map(run_prog, enumerate(progs)))
+    for rec, text, res in results:
+        key = json.dumps(rec["prog"])
+        ok = True
+        for hist in ("compile", "source", "bytecode"):
+            run.case((key, hist))
+            o = res[hist]
+            if o["rc"] != 0:
+                ok = False
+                run.violation(f"{hist}:{key}", f"{hist} of module {rec['prog']} failed: {o['err']}\n{text}", {"prog": rec, "text": text})
+                continue
+            want = rec[hist]
+            for i, per in enumerate(want, 1):
+                for sidx, cnt in enumerate(per, 1):
+                    got = o["lines"].count(f"s{10 * i + sidx}")
+                    if got != cnt:
+                        ok = False
+                        kind = rec["prog"][i - 1][0]
+                        run.violation(f"{hist}:{key}", f"{hist}: {'body' if sidx == 1 else 'generated code'} of form {i} ({kind}) "
+                                      f"ran {got} times, expected {cnt}; module:\n{text}", {"prog": rec, "text": text})
+            # values: eval-and-compile returns its last value, do-mac's result is compiled and evaluated
+            for i, (kind, (where, runs)) in enumerate(rec["prog"], 1):
+                if kind in ("eac", "domac") and hist != "compile":
+                    vals = [l for l in o["lines"] if l.startswith(f"v{i}=")]
+                    wantv = [f"v{i}={(40 if kind == 'eac' else 50) + i}"] * runs
+                    if vals != wantv:
+                        ok = False
+                        run.violation(f"value:{key}", f"{hist}: form {i} ({kind}) produced values {vals}, expected {wantv}",
+                                      {"prog": rec, "text": text})
+            if hist == "source" and not o["compiled"]:
+                run.notes.append(f"'from source' run of {key} did not report compiling")
+            if hist == "bytecode" and o["compiled"]:
+                ok = False
+                run.violation(f"recompiled:{key}", f"second import of {key} compiled again instead of loading the bytecode",
+                              {"prog": rec})
+        if ok:
+            run.cov["traces_validated_against_impl"] += 3
+    run.sample({"module": render_staging(results[0][0]["prog"]), "expected": {k: results[0][0][k] for k in ("compile", "source", "bytecode")}})
+    return run.finish("model_checking",
+                      "every module of <= %d staging forms (eval-when-compile, eval-and-compile, do-mac) each at top level or "
+                      "in a function called 0-2 times; HyStaging gives per effect site the number of firings for three "
+                      "histories (compile only, import from source, import again from cached bytecode); each history is a "
+                      "separate interpreter process, firings counted from a log file, returned values checked" % mf,
+                      extra={"exhaustive": len(progs) == len(r.ex("PROG"))})
+
+
 def main(run):
-    return {"C35": main_c35, "C36": main_c36, "C37": main_c37}[run.pid](run)
+    return {"C35": main_c35, "C36": main_c36, "C37": main_c37, "C16": main_c16}[run.pid](run)
 
 
 def replay(run, path):
